@@ -5,6 +5,9 @@
 /* documented identifier range of sockets, contexts, dialers, listeners and
  * pipes: positive 31-bit */
 #define SC_ID_OK(id) ((id) >= 1u && (id) <= 0x7fffffffu)
+/* the issuing range of a static id map: fixed by its static initialiser in the real file (lemma units id_ranges,
+ * plain CBMC without DFCC -- DFCC havocs static objects at harness entry) and changed by nobody (only nni_id_map_init writes it) */
+#define SC_RANGE(M) ((M).id_min_val == 1 && (M).id_max_val == 0x7fffffffu)
 /* ghost groups of the id allocator / removal model */
 #define G_IDA g_ida_calls, g_ida_map, g_ida_val, g_ida_issued
 #define G_IDR g_idr_calls, g_idr_map, g_idr_id, g_idr_at_free
